@@ -375,3 +375,217 @@ func callsByMethod(fn *ssa.Function, method, recvSuffix string) []*ssa.Call {
 	}
 	return out
 }
+
+// ---------------------------------------------------------------------------------
+// Range loops and nil-tracking path search
+// ---------------------------------------------------------------------------------
+
+// RangeLoop is a loop that visits every index of a slice value exactly once in order
+// (`for i, x := range s`, `for i := 0; i < len(s); i++`).
+type RangeLoop struct {
+	L     *core.Loop
+	Slice ssa.Value
+	Idx   ssa.Value
+	Elems []ssa.Value // loads of s[idx] inside the body (and the IndexAddr themselves)
+}
+
+// RangeLoops finds the complete range loops of fn.
+func RangeLoops(fn *ssa.Function) []RangeLoop {
+	var out []RangeLoop
+	for _, l := range core.Loops(fn) {
+		h := l.Header
+		ifi, ok := h.Instrs[len(h.Instrs)-1].(*ssa.If)
+		if !ok {
+			continue
+		}
+		bo, ok := ifi.Cond.(*ssa.BinOp)
+		if !ok || bo.Op != token.LSS {
+			continue
+		}
+		lc, ok := bo.Y.(*ssa.Call)
+		if !ok || core.CalleeName(lc.Common()) != "builtin.len" {
+			continue
+		}
+		if !l.Body[h.Succs[0]] || l.Body[h.Succs[1]] {
+			continue
+		}
+		if !c24IsRangeIndex(bo.X, l) {
+			continue
+		}
+		// index must advance by exactly one per iteration and not be written otherwise:
+		// guaranteed by the phi/+1 shape recognised above for `range`; for the 3-clause
+		// form the phi's other edge must be idx+1.
+		if ph, ok := bo.X.(*ssa.Phi); ok {
+			okStep := true
+			for _, e := range ph.Edges {
+				if k, isK := core.ConstInt(e); isK && k == 0 {
+					continue
+				}
+				if b2, ok := e.(*ssa.BinOp); ok && b2.Op == token.ADD && b2.X == ssa.Value(ph) {
+					if k, isK := core.ConstInt(b2.Y); isK && k == 1 {
+						continue
+					}
+				}
+				okStep = false
+			}
+			if !okStep {
+				continue
+			}
+		}
+		rl := RangeLoop{L: l, Slice: lc.Call.Args[0], Idx: bo.X}
+		for b := range l.Body {
+			for _, in := range b.Instrs {
+				if ia, ok := in.(*ssa.IndexAddr); ok && ia.Index == bo.X && sameSliceValue(ia.X, rl.Slice) {
+					rl.Elems = append(rl.Elems, ia)
+					for _, ref := range *ia.Referrers() {
+						if ld, ok := ref.(*ssa.UnOp); ok && ld.Op == token.MUL {
+							rl.Elems = append(rl.Elems, ld)
+						}
+					}
+				}
+			}
+		}
+		out = append(out, rl)
+	}
+	return out
+}
+
+func sameSliceValue(a, b ssa.Value) bool {
+	if a == b || core.SameValue(a, b) {
+		return true
+	}
+	ra, pa := core.BaseObject(a)
+	rb, pb := core.BaseObject(b)
+	return pa == pb && pa != "" && ra == rb
+}
+
+// (rl) IsElem: v is the element visited by the loop.
+func (rl RangeLoop) IsElem(v ssa.Value) bool {
+	for _, e := range rl.Elems {
+		if e == v {
+			return true
+		}
+	}
+	return false
+}
+
+// BodyMustPass: inside the loop, no path from the body entry to the next iteration or
+// to a non-failing exit of the function avoids `must`.
+func (rl RangeLoop) BodyMustPass(p *core.Prog, must ssa.Instruction) (bool, string) {
+	return rl.BodyMustPassTo(p, must, func(in ssa.Instruction) bool {
+		ret, ok := in.(*ssa.Return)
+		return ok && core.ClassifyReturn(ret) != core.ExitFailure
+	})
+}
+
+// BodyMustPassTo: as BodyMustPass with a caller-defined set of "bad" targets besides
+// the next iteration.
+func (rl RangeLoop) BodyMustPassTo(p *core.Prog, must ssa.Instruction, bad func(ssa.Instruction) bool) (bool, string) {
+	h := rl.L.Header
+	ifi := h.Instrs[len(h.Instrs)-1]
+	path, _, found := core.PathQuery{Fn: h.Parent(), Start: ifi,
+		Barrier: func(in ssa.Instruction) bool { return in == must },
+		EdgeOK: func(from *ssa.BasicBlock, succ int) bool {
+			if from == h && succ == 1 {
+				return false
+			}
+			return core.FeasibleEdge(from, succ)
+		},
+		Target: func(in ssa.Instruction) bool {
+			return in == h.Instrs[0] || bad(in)
+		}}.Find()
+	if found {
+		return false, "an iteration can finish without it: " + p.PathString(path)
+	}
+	return true, ""
+}
+
+// NoPathAvoidingTracked searches a path from `start` to a non-failing exit that crosses
+// no barrier, pruning edges that contradict what the path itself established about
+// the nil-ness of `tracked` (a small amount of path sensitivity for
+// `if x == nil {…} … if x != nil {…}`). Returns ok=true when no such path exists.
+func NoPathAvoidingTracked(p *core.Prog, fn *ssa.Function, start ssa.Instruction, barrier func(ssa.Instruction) bool, tracked ssa.Value) (bool, string) {
+	type state struct {
+		b   *ssa.BasicBlock
+		nil int // 0 unknown, 1 nil, -1 non-nil
+	}
+	init := 0
+	if start != nil {
+		init = core.KnownNil(core.FactsAt(start.Block()), tracked)
+	}
+	scan := func(b *ssa.BasicBlock, from int) (hit, blocked bool) {
+		for i := from; i < len(b.Instrs); i++ {
+			in := b.Instrs[i]
+			if ret, ok := in.(*ssa.Return); ok && core.ClassifyReturn(ret) != core.ExitFailure {
+				return true, false
+			}
+			if barrier(in) {
+				return false, true
+			}
+		}
+		return false, false
+	}
+	var sb *ssa.BasicBlock
+	si := 0
+	if start != nil {
+		sb = start.Block()
+		for i, in := range sb.Instrs {
+			if in == start {
+				si = i + 1
+			}
+		}
+	} else {
+		sb = fn.Blocks[0]
+	}
+	if hit, blocked := scan(sb, si); hit {
+		return false, "exit reachable in the same block"
+	} else if blocked {
+		return true, ""
+	}
+	type node struct {
+		s    state
+		prev *node
+	}
+	seen := map[state]bool{}
+	queue := []*node{{s: state{sb, init}}}
+	for len(queue) > 0 {
+		n := queue[0]
+		queue = queue[1:]
+		for i, s := range n.s.b.Succs {
+			if !core.FeasibleEdge(n.s.b, i) {
+				continue
+			}
+			nl := n.s.nil
+			if fs := factsOfEdge(n.s.b, s); len(fs) == 1 {
+				if k := core.KnownNil(fs, tracked); k != 0 {
+					if nl != 0 && nl != k {
+						continue // contradicts what this path already knows
+					}
+					nl = k
+				}
+			}
+			st := state{s, nl}
+			if seen[st] {
+				continue
+			}
+			seen[st] = true
+			nn := &node{s: st, prev: n}
+			hit, blocked := scan(s, 0)
+			if hit {
+				var path []*ssa.BasicBlock
+				for x := nn; x != nil; x = x.prev {
+					path = append([]*ssa.BasicBlock{x.s.b}, path...)
+				}
+				return false, "non-failing exit reachable without it: " + p.PathString(path)
+			}
+			if blocked {
+				continue
+			}
+			queue = append(queue, nn)
+		}
+	}
+	return true, ""
+}
+
+// resolveCell looks through a load of a local cell with a single store.
+func resolveCell(v ssa.Value) ssa.Value { return canonObj(v) }
